@@ -345,6 +345,35 @@ func (r *spaceRunner) exponentGrid() {
 	}
 }
 
+// meshFamily: n object types whose n optional properties refer to all n types (a
+// small catalogue of entities that all know each other). The example builder lets a
+// type occur twice on a path, so its output grows super-exponentially with n: 13 KB
+// at n=4, 26 MB at n=6 - and at n=7 the process runs out of memory
+// (KF-C02-example-explosion; n=7 is part of the thorough tier only, it takes two
+// minutes to die).
+func (r *spaceRunner) meshFamily() {
+	maxN := 6
+	if r.w.Thorough() {
+		maxN = 7
+	}
+	for n := 2; n <= maxN; n++ {
+		p := &project{Root: "@t0", Types: map[string]string{}}
+		for i := 0; i < n; i++ {
+			var props []string
+			for j := 0; j < n; j++ {
+				comma := ","
+				if j == n-1 {
+					comma = ""
+				}
+				props = append(props, fmt.Sprintf("\t\"p%d\": @t%d%s // {optional: true}", j, j, comma))
+			}
+			p.Types[fmt.Sprintf("@t%d", i)] = "{\n" + strings.Join(props, "\n") + "\n}"
+		}
+		r.projectCase("mesh", p)
+		r.w.S.Nontrivial++
+	}
+}
+
 // graphFamily: <=3 mutually/self-referencing types, every subset registered.
 func (r *spaceRunner) graphFamily() {
 	w := r.w
@@ -518,6 +547,7 @@ func init() {
 			r := &spaceRunner{w: w, mk: func(entry string, in []byte, wit []byte) callSink { return c02Sink(w, entry, in, wit) }}
 			if w.Shard == 16 {
 				r.exponentGrid()
+				r.meshFamily()
 				return
 			}
 			w.Of = 16
